@@ -88,9 +88,9 @@ def rule_sheet_selection(ctx):
     decide(ctx, "O16.1", "excel_rows(sheet selection, row-major, full width)", "cutplace.rowio.excel_rows", cell, min_cells=4)
 
 
-def rule_cell_values(ctx):
+def rule_cell_values(ctx, rule_id="O16.3"):
     model = ctx.model
-    ctx.res.minimum("O16.3", 1)
+    ctx.res.minimum(rule_id, 1)
     cases = [
         # (label, ctype, value, date tuple or None, expected)
         ("text", "TEXT", "hello", None, "hello"),
@@ -98,6 +98,7 @@ def rule_cell_values(ctx):
         ("empty", "EMPTY", "", None, ""),
         ("text cell without a stored value (formula result never cached)", "TEXT", None, None, ""),
         ("whole number", "NUMBER", 3.0, None, "3"),
+        ("zero", "NUMBER", 0.0, None, "0"),
         ("negative whole number", "NUMBER", -12.0, None, "-12"),
         ("fraction", "NUMBER", 2.5, None, "2.5"),
         ("big whole number", "NUMBER", 9007199254740992.0, None, "9007199254740992"),
@@ -132,8 +133,8 @@ def rule_cell_values(ctx):
 
         externals = {
             "xlrd.xldate_as_tuple": xldate_as_tuple,
-            "datetime.time": lambda i, a, k: datetime.time(*a),
-            "datetime.datetime": lambda i, a, k: datetime.datetime(*a),
+            "datetime.time": lambda i, a, k: _native(i, datetime.time, a),
+            "datetime.datetime": lambda i, a, k: _native(i, datetime.datetime, a),
             "builtins.str": _str_hook,
         }
         interp = Interp(model, ch, externals=externals)
@@ -172,7 +173,15 @@ def rule_cell_values(ctx):
             return (label, result, "whole number without fractional suffix (e.g. %s)" % expected)
         return (label, result, expected)
 
-    decide(ctx, "O16.3", "_excel_cell_value(cell kinds)", "cutplace.rowio._excel_cell_value", cell, min_cells=len(cases))
+    decide(ctx, rule_id, "_excel_cell_value(cell kinds)", "cutplace.rowio._excel_cell_value", cell, min_cells=len(cases))
+
+
+def _native(interp, constructor, args):
+    """The real constructor; what it refuses is refused in the analysed code as well (as the same exception class)."""
+    try:
+        return constructor(*args)
+    except (ValueError, TypeError, OverflowError) as error:
+        interp.raise_("builtins." + type(error).__name__, str(error))
 
 
 def _str_hook(interp, args, kwargs):
@@ -187,7 +196,7 @@ def rule_xlsx_writer(ctx):
     ctx.res.minimum("O16.5", 1)
 
     def cell(ch):
-        rows = ch.choose("rows", [[["a"]], [["a", "b"], ["c", "d"]], [["a", "b", "c"], ["d"]]])
+        rows = ch.choose("rows", [[["a"]], [["a", "b"], ["c", "d"]], [["a", "b", "c"], ["d"]], [["1", "", "x"]], [["", "a"], ["b", ""]]])
         entry = ch.choose("written with", ["write_row", "write_rows"])
         # xlsxwriter reports what it could not store through the return code: 0 = stored, -1 = outside the sheet,
         # -2 = text longer than 32767 characters (truncated)
@@ -223,10 +232,13 @@ def rule_xlsx_writer(ctx):
         if return_code != 0:
             # an item the sheet cannot hold must not be dropped or cut silently: "reads back identically"
             return (key, outcome, "raise DataFormatError")
-        expected = [("write_string", y, x, item) for y, row in enumerate(rows) for x, item in enumerate(row)] + [("close",)]
-        return (key, (outcome, log), ("written", expected))
+        # an empty item may be stored as an empty string or left out (both read back as ""), but it keeps its column
+        expected = [("write_string", y, x, item) for y, row in enumerate(rows) for x, item in enumerate(row) if item != ""] + [("close",)]
+        empty_places = {(y, x) for y, row in enumerate(rows) for x, item in enumerate(row) if item == ""}
+        stored = [entry_ for entry_ in log if not (entry_[0] == "write_string" and len(entry_) == 4 and entry_[3] == "" and entry_[1:3] in empty_places)]
+        return (key, (outcome, stored), ("written", expected))
 
-    decide(ctx, "O16.5", "XlsxRowWriter(write_string at line/cell)", "cutplace.rowio.XlsxRowWriter.write_row", cell, min_cells=18, max_report=4)
+    decide(ctx, "O16.5", "XlsxRowWriter(write_string at line/cell)", "cutplace.rowio.XlsxRowWriter.write_row", cell, min_cells=30, max_report=4)
 
 
 def rule_raw_rows_dispatch(ctx):
